@@ -1167,6 +1167,7 @@ Lemma fetch_keeps bk ids ts ts' b : fetch bk ids ts = (ts', b) -> keeps_all ts t
 Proof.
   destruct bk; simpl; intros F.
   - destruct (fetch_generic ids ts) as [ts1 b1] eqn:F1. inversion F; subst. eapply fetch_generic_keeps; eauto.
+  - destruct (fetch_generic ids ts) as [ts1 b1] eqn:F1. inversion F; subst. eapply fetch_generic_keeps; eauto.
   - unfold fetch_sim in F. destruct (fetch_sim_polled ids ts) as [ts1 b1] eqn:F1. inversion F; subst.
     eapply keeps_all_trans; [eapply fetch_sim_polled_keeps; eauto|]. apply keeps_all_map. apply keeps_take.
 Qed.
